@@ -1036,6 +1036,14 @@ func writeOnce(cell ssa.Value, mc *ssa.MakeClosure) bool {
 	if !ok {
 		return false
 	}
+	// a closure created inside a loop must capture a variable that is allocated in that loop too (a fresh variable per
+	// iteration); a variable declared outside -- a Go 1.21-style shared range variable, for instance -- is assigned
+	// again by the next iteration while the closure is still alive
+	for _, body := range naturalLoops(mc.Parent()) {
+		if body[mc.Block()] && !body[a.Block()] {
+			return false
+		}
+	}
 	stores := 0
 	for _, r := range *a.Referrers() {
 		switch y := r.(type) {
@@ -1638,4 +1646,29 @@ func (vc *VC) guardAccess(addr ssa.Value, write bool, st *State) {
 	} else {
 		vc.oblige("lock.guard", "", vc.reach[vc.curBlock], fmt.Sprintf("(or (select %s %s) (> (select %s %s) 0))", w, a, r, a), "read of guarded field "+fieldName(fa)+" with its lock held")
 	}
+}
+
+// naturalLoops: for every back edge t -> h (h dominates t) the set of blocks of its natural loop.
+func naturalLoops(fn *ssa.Function) []map[*ssa.BasicBlock]bool {
+	var res []map[*ssa.BasicBlock]bool
+	for _, t := range fn.Blocks {
+		for _, h := range t.Succs {
+			if !h.Dominates(t) {
+				continue
+			}
+			body := map[*ssa.BasicBlock]bool{h: true}
+			work := []*ssa.BasicBlock{t}
+			for len(work) > 0 {
+				x := work[len(work)-1]
+				work = work[:len(work)-1]
+				if body[x] {
+					continue
+				}
+				body[x] = true
+				work = append(work, x.Preds...)
+			}
+			res = append(res, body)
+		}
+	}
+	return res
 }
